@@ -95,7 +95,8 @@ theorem optimizeRandom_infeasible (ops : SpecOps σ K) (ev) (hp : PureEval ops e
     (s : Seq) (st : St σ K) (hs : feasible ops ev F s = false) :
     ∃ st', optimizeRandom ops sett F s st = (.error .valueError, s, st') := by
   obtain ⟨st1, h1, _⟩ := allConstraintsPass_pure ops ev hp F s st
-  exact ⟨st1, by simp only [optimizeRandom, h1, hs]⟩
+  obtain ⟨r, st2, h2, _⟩ := constraintsEvaluations_pure ops ev hp s F.constraints st1
+  exact ⟨st2, by simp only [optimizeRandom, h1, hs, h2]⟩
 
 /-- both local optimisers: feasible in, feasible out, total not lower -/
 theorem local_optimizers_preserve [LawfulScore K] (ops : SpecOps σ K) (ev) (hp : PureEval ops ev) (sett : Settings)
